@@ -281,8 +281,10 @@ fn btpe<R: Rng + ?Sized>(btpe: Btpe, flipped: bool, rng: &mut R) -> u64 {
             }
         } else {
             // Step 4: Region 4, right exponential tail.
-            y = (x_r - v.ln() / lambda_r) as u64; // `as` cast saturates
-            if y > btpe.n {
+            let y_tmp = x_r - v.ln() / lambda_r;
+            y = y_tmp as u64; // `as` cast saturates
+            // v = 0 gives +inf, which saturates to u64::MAX and would pass `y > n` for n = u64::MAX
+            if y > btpe.n || y_tmp.is_infinite() {
                 continue;
             } else {
                 v *= (u - p3) * lambda_r;
